@@ -318,3 +318,9 @@ func c08Replay(w string) (bool, string) {
 	sort.Strings(rel)
 	return len(rel) == 0, strings.Join(rel, "\n")
 }
+
+// PyPIResolveDump resolves and renders (development aid).
+func PyPIResolveDump(u univ.Universe, root [2]string) string {
+	g, err := pypires.NewResolver(u.Client(nil)).Resolve(ctxBG, u.VK(root[0], root[1]))
+	return graphDump(g, err)
+}
